@@ -348,6 +348,47 @@ def drive(a, b, c, d):
     return f(a, pick(c, 3))
 ''', vars=["y", "z", "x"], forms=["with", "with swallowing an exception", "multiple with items"], ctx=["x"])
 
+T("with_swallow_return", '''
+def f(x, sel):
+    y = x
+    with CM(x, swallow=True):
+        if sel == 1:
+            raise Boom(x)
+        y = x + 1
+        return y
+
+def drive(a, b, c, d):
+    return f(a, pick(c, 2))
+''', vars=["y", "x"], forms=["function ending in a with block whose body returns and whose manager may swallow an exception"],
+  ctx=["x"])
+
+T("called_in_handler", '''
+def f(x, sel):
+    y = x + 1
+    if sel == 1:
+        raise Boom(y)
+    return y
+
+def drive(a, b, c, d):
+    sel = pick(c, 2)
+    out = []
+    try:
+        raise Boom(a)
+    except Boom:
+        try:
+            out.append(f(a, sel))
+        except Boom as e:
+            out.append(("boom", e.args))
+    try:
+        try:
+            raise Boom(b)
+        finally:
+            out.append(f(b, 0))
+    except Boom:
+        pass
+    return out
+''', vars=["y", "x"], forms=["function called while its caller is handling / propagating another exception"], ctx=["x"])
+
 T("with_target", '''
 def f(x):
     with CM(x + 1) as w:
